@@ -116,6 +116,7 @@ def run(ctx):
     uc = UserCode(prog)
     ctx.rule("R1.revalidate-after-callback", "no cell access / state write reachable after a callback (under a non-terminal observation) without re-reading the state", floor=8)
     ctx.rule("R2.terminal-before-wake", "Waker::wake dominated by state.set(SET|DISCONNECTED), no later non-terminal set", floor=2)
+    ctx.rule("R8.no-event-access-after-wake", "sender side: once the terminal state is stored and the awaiter's waker has been invoked the receiver may have released the storage - nothing derived from the event reference is used afterwards", floor=2)
     ctx.rule("R3.extraction-is-last", "after the payload is moved out no callback site is reachable before return", floor=3)
     ctx.rule("R4.clone-before-cell", "Waker::clone dominates the first cell access and the state read in poll_bound / poll_awaiting", floor=2)
     ctx.rule("R5.revert-before-drop", "final_poll: state.set(BOUND) dominates the stored waker's destruction; a state.get() follows it before the disconnect store", floor=2)
@@ -193,6 +194,42 @@ def run(ctx):
                 ok = ok and not later
                 ctx.ob("R2.terminal-before-wake", name, ok, b.loc(t["span"]),
                        f"stores dominating the wake: {[o['val'] for o in sets]}; stores after it: {[o['val'] for o in later]}")
+
+    # ---------------- R8
+    for name in ("set", "sender_dropped_without_set"):
+        b = fn.get(name)
+        if b is None:
+            continue
+        ev_params = [i for i in range(1, b.arg_count + 1) if "LocalEvent" in b.local_ty(i)["s"]]
+        for bb, d in callback_sites(b):
+            after = b.reachable(b.term_succ(bb, False), unwind=False)
+            uses = []
+            for a in sorted(after):
+                blk = b.blocks[a]
+                if blk.cleanup:
+                    continue
+                ops = []
+                for st in blk.stmts:
+                    if st["k"] == "assign":
+                        rv = st["rv"]
+                        for key in ("op", "a", "b"):
+                            if isinstance(rv.get(key), dict):
+                                ops.append((rv[key], st.get("span")))
+                        for o in rv.get("ops", []) or []:
+                            ops.append((o, st.get("span")))
+                        if isinstance(rv.get("place"), dict):
+                            ops.append(({"k": "copy", "place": rv["place"]}, st.get("span")))
+                t = blk.term
+                if t["k"] == "call":
+                    for o in t["args"]:
+                        ops.append((o, t["span"]))
+                for o, sp in ops:
+                    sl = Slice(b).run(o)
+                    if sl["args"] & set(ev_params):
+                        uses.append(b.loc(sp) if sp else f"bb{a}")
+            ctx.ob("R8.no-event-access-after-wake", f"{name}|{d[0]}", not uses, b.loc(b.blocks[bb].term.get("span")),
+                   f"uses of the event reference reachable after the callback: {sorted(set(uses))[:6]}" if uses else
+                   "nothing derived from the event reference is used after the callback")
 
     # ---------------- R3
     for name, b in sorted(fn.items()):
